@@ -21,7 +21,8 @@ RULE = (
     "OPT: one SGD step through a derived circuit, R: operand.reset_parameters(), L: load_state_dict(initial snapshot), "
     "RD: derived.reset_parameters()}; every history is replayed on freshly compiled objects; invariant in every state: every "
     "derived circuit equals its definitional oracle evaluated at the parameter values read back from the operand's tensors "
-    "through the registry, and has no learnable tensor of its own. State key = rounded bytes of all operand tensors"
+    "through the registry, and has no learnable tensor of its own; every state is evaluated with and without autograd, and a subset of "
+    "configurations runs with all compiled circuits in evaluation mode (module.eval(), evaluated once before the history). State key = rounded bytes of all operand tensors"
 )
 ASSUMPTIONS = ["updates are deterministic (fixed deltas / seeded resets), so a history determines the state",
                "lse-sum only on bases whose parameterisation is positive for any raw values (logits inputs, exp weights)"]
@@ -65,6 +66,10 @@ def cases(tier, seed):
     for bi in ORDER[: BOUNDS[tier]["bases"]]:
         for semiring, fold, optimize in configs_for(BASES[bi]):
             yield {"base": bi, "semiring": semiring, "fold": fold, "optimize": optimize, "depth": BOUNDS[tier]["depth"]}
+    # the same histories with every compiled circuit in evaluation mode (nn.Module.eval()) and evaluated once beforehand
+    for bi in ORDER[: (2 if tier == "quick" else 6)]:
+        for semiring, fold, optimize in [("sum-product", True, True), ("sum-product", False, False)]:
+            yield {"base": bi, "semiring": semiring, "fold": fold, "optimize": optimize, "depth": BOUNDS[tier]["depth"], "mode": "eval"}
 
 
 def pipeline_spec(base):
@@ -102,6 +107,11 @@ class World:
             self.val0 = cdl.valuation(self.pipe.roles, "monotone", seed)
         self.cc.bind(self.val0)
         self.operand = self.cc.cc(self.pipe.circuits[0])
+        if case.get("mode") == "eval":
+            # every compiled circuit is put in evaluation mode and evaluated once BEFORE the history starts, so that anything
+            # memoised in evaluation mode is warm when the first update arrives
+            for t in [0] + self.targets:
+                self.cc.cc(self.pipe.circuits[t]).eval()
         self.snapshot0 = copy.deepcopy(self.operand.state_dict())
         self.tensors = [t for t in circuit_tensor_params(self.pipe.circuits[0]) if t in self.pipe.roles]
         self.nvars = cdl.max_var(self.pipe.circuits) + 1
@@ -113,6 +123,9 @@ class World:
             sv = self.pipe.scope(t)
             self.rows[t] = ref.assignments({v: dom[v] for v in sv}, cont_grid=grid, max_rows=6) if sv else [{}]
         self.n_resets = 0
+        if case.get("mode") == "eval":
+            for t in [0] + self.targets:
+                self.cc.evaluate(self.pipe.circuits[t], self.rows[t], self.nvars)
 
     def apply(self, ev):
         cc = self.cc
@@ -249,7 +262,7 @@ def run_case(case):
     res = bfs.explore(lambda: [], lambda m: EVENTS, replay_factory(case, seed), case["depth"], isolate=False)
     out = {"status": "violation" if res.violations else "ok", "nontrivial": res.states > 1, "nontrivial_n": max(0, res.states - 1),
            "states": res.states, "transitions": res.transitions, "traces": res.replays, "evaluations": res.transitions,
-           "dims": {"base": case["base"], "cfg": f"{case['semiring']}/{case['fold']}/{case['optimize']}"},
+           "dims": {"base": case["base"], "cfg": f"{case['semiring']}/{case['fold']}/{case['optimize']}", "mode": case.get("mode", "train")},
            "outcome": f"{res.states}", "summary": f"states={res.states} transitions={res.transitions} e.g. {res.sample_histories[:1]}"}
     if res.violations:
         out["violations"] = [{"sig": sig, "detail": msg, "case": dict(case, history=hist)} for hist, msg, sig in res.violations]
